@@ -305,7 +305,10 @@ def core_script(m, order=0, symm="default", dump=True, shift=None, early=False, 
     if dump:
         lines.append("dumplattice")
     if early:
-        lines.append("earlyctor")      # construct IndexClassification / IndexHamiltonian / Symmetrizer before any prepare()
+        # declare IndexClassification right after the FIRST site exists (it keeps a reference to the site map, the other sites
+        # and all terms are added afterwards); IndexHamiltonian / Symmetrizer are declared before any prepare()
+        first = next((k for k, l in enumerate(lines) if l.startswith("site ")), len(lines) - 1)
+        lines.insert(first + 1, "earlyctor")
     lines += ["index %d" % order, "ham"]
     if shift is not None:
         lines.append("hshift %s" % val(shift))      # constant energy offset
